@@ -916,7 +916,64 @@ Section Transport.
     apply (async_eq_seq_tree P (erase p) m o HP (tree_erase p Hp) Hnm).
     rewrite <- E. cbn [ecfg c_mode]. fold h s1. rewrite Hm. reflexivity.
   Qed.
+  (* T3 *)
+  Theorem contexts_nest_lifo_rtree0 n :
+    no_unwind P n (start h s1) ->
+    lifo (layers (c_st (run P n (start h s1)))) (layers (c_st (run P (S n) (start h s1)))).
+  Proof.
+    intros Hn. destruct (sim_run P p n Hp Hn) as (m & _ & E & Hnm).
+    pose proof (rh_run P n _ (RHc_start P p Hp)) as Hc. fold h s1 in Hc, E.
+    rewrite run_snoc. destruct (is_final (c_mode (run P n (start h s1)))) eqn:Hf; [exists []; left; rewrite app_nil_r; reflexivity|].
+    destruct (is_readm (c_mode (run P n (start h s1)))) eqn:Hr.
+    - destruct (run P n (start h s1)) as [md fr s]. cbn [c_mode] in Hr.
+      destruct md as [x| | | |t|t q| |o|e|o|]; try discriminate Hr. destruct q; try discriminate Hr.
+      cbn [step c_mode c_frames c_st]. exists []. left. rewrite app_nil_r. reflexivity.
+    - pose proof (contexts_nest_lifo_tree P HP (erase p) (tree_erase p Hp) (wn_erase [] p Hw) m Hnm) as T.
+      rewrite run_snoc in T. rewrite <- E in T. cbn [ecfg c_mode] in T. rewrite is_final_emode, Hf in T.
+      change (mkC (emode (c_mode (run P n (start h s1)))) (map eframe (c_frames (run P n (start h s1)))) (est (c_st (run P n (start h s1)))))
+        with (ecfg (run P n (start h s1))) in T.
+      rewrite (step_est P (run P n (start h s1)) Hr) in T. cbn [ecfg c_st] in T. rewrite !layers_est in T. exact T.
+  Qed.
+
+  (* the save-and-restore invariant *)
+  Theorem saved_values_rtree0 n :
+    no_unwind P n (start h s1) ->
+    match c_mode (run P n (start h s1)) with
+    | MUnwind _ | MStuck | MDone _ => True
+    | _ => vars_ok (fun x => var_get x s1) (c_st (run P n (start h s1)))
+    end.
+  Proof.
+    intros Hn. destruct (sim_run P p n Hp Hn) as (m & _ & E & Hnm).
+    pose proof (saved_values_tree P HP (erase p) (tree_erase p Hp) (wn_erase [] p Hw) m Hnm) as T.
+    rewrite <- E in T. cbn [ecfg c_st c_mode] in T. fold h s1 in T.
+    assert (V : forall s, vars_ok (fun x => var_get x s1) (est s) -> vars_ok (fun x => var_get x s1) s).
+    { intros s. unfold vars_ok, VOs. rewrite layers_est. intros H. exact H. }
+    destruct (c_mode (run P n (start h s1))); cbn [emode] in T; try exact I; apply V; exact T.
+  Qed.
 End Transport.
+
+Lemma reach_est s u t : reach (est s) u t -> reach s u t.
+Proof.
+  intros H. induction H as [|y tk' z Hr IH Hg Hin]; [apply reach_refl|].
+  apply get_est_inv in Hg as (tk & Hg & ->). exact (reach_dep s u y tk z IH Hg Hin).
+Qed.
+
+(* the owners of the lower layers await the running task (needs rtree0 p only) *)
+Theorem layer_owners_await_rtree0 P p n t q :
+  pointwise P -> rtree0 p ->
+  let h := fst (create [] (FTask p) (st0 P)) in
+  let s1 := snd (create [] (FTask p) (st0 P)) in
+  no_unwind P n (start h s1) -> c_mode (run P n (start h s1)) = MRun t q ->
+  let s := c_st (run P n (start h s1)) in
+  forall rest, tasks s = t :: rest -> forall u c, In (u, c) (lower s rest) -> reach s u t.
+Proof.
+  intros HP Hp. cbn zeta. intros Hn Hm rest Hts u c Hin.
+  destruct (sim_run P p n Hp Hn) as (m & _ & E & Hnm).
+  assert (Hmq : c_mode (run P m (start (fst (create [] (FTask (erase p)) (st0 P))) (snd (create [] (FTask (erase p)) (st0 P))))) = MRun t (erase q)).
+  { rewrite <- E. cbn [ecfg c_mode]. rewrite Hm. reflexivity. }
+  pose proof (layer_owners_await_tree P HP (erase p) (tree_erase p Hp) m t (erase q) Hnm Hmq) as T. cbn zeta in T.
+  rewrite <- E in T. cbn [ecfg c_st] in T. apply reach_est. apply (T rest Hts u c). rewrite lower_est. exact Hin.
+Qed.
 
 (* ------------------------------------------------------------------ non-vacuity: a concrete run with reads *)
 Definition c07r_fin (o : outcome) : prog := match o with Ok v => Ret v | Err e => Raise e end.
